@@ -5,12 +5,17 @@
         route    = set (cif_container_set_value) | additem (cif_loop_add_item default value, two existing packets)
                  | addpkt (cif_loop_add_packet) | update (cif_pktitr_update_packet)
                  | parse (the value written by cif_write from a scratch CIF, then cif_parse of that document)
+                 | frameset (cif_container_set_value in a save frame nested in a save frame: block b { loop _k; save f { _k; save g { _x } } })
         mutation = 0 (release only) | 1 (reinitialise as N/A, then release) | 2 (change the content in place, then release)
      -> sv rc=<code of the storing call> o=<original> g=<cif_container_get_value> i=<packet iteration, `,`-separated>
            w=<cif_walk item handler, `,`-separated> m=<field-level dump of the value read back>
 
+           f=<code of cif_container_get_value> mi=<field-level dumps of the iteration> mw=<… of the walk> d=<doubles of g | ->
+
    o/g/i/w are dumped through the PUBLIC API only: kind, text, quoted, and for numbers cif_value_get_number / get_su as
-   (sign, 53-bit mantissa, exponent).  m reads the struct fields (digits, su digits, scale, sign), for the model. */
+   (sign, 53-bit mantissa, exponent).  m, mi, mw read the struct fields (digits, su digits, scale, sign), for the model, which
+   computes them through its get_value, packet-iterator and walk models on its store model; f is get_value's code (CIF_OK or
+   CIF_AMBIGUOUS_ITEM); d the two doubles of a number read back by get_value (the model: Model/Numb.getNumber / getSu). */
 #include <math.h>
 #include "value.c"
 #include "x_gg.h"
@@ -114,13 +119,15 @@ static void mutate(cif_value_tp *v, int mode) {
     }
 }
 
-typedef struct { FILE *out; int count; } walk_ctx;
+typedef struct { FILE *out; int count; FILE *mout; } walk_ctx;
 
+/* the item handler: every value cif_walk presents for _x, through the public API (out) and field by field (mout, for the model) */
 static int on_item(UChar *name, cif_value_tp *value, void *context) {
     walk_ctx *c = (walk_ctx *) context;
     if (u_strcmp(name, NAME_X) == 0) {
-        if (c->count++) fprintf(c->out, ",");
+        if (c->count++) { fprintf(c->out, ","); if (c->mout) fprintf(c->mout, ","); }
         fdump_pub(c->out, value);
+        if (c->mout) { if (value) fdumpx_value(c->mout, value); else fprintf(c->mout, "~"); }
     }
     return CIF_TRAVERSE_CONTINUE;
 }
@@ -223,7 +230,7 @@ static void big_parse(int argc, char **argv) {
         if (loop) cif_loop_free(loop);
         memset(&handler, 0, sizeof(handler));
         handler.handle_item = on_item;
-        ctx.out = open_memstream(&wtext, &wsz); ctx.count = 0;
+        ctx.out = open_memstream(&wtext, &wsz); ctx.count = 0; ctx.mout = NULL;
         r2 = cif_walk(cif, &handler, &ctx);
         fclose(ctx.out);
         OUT(" w=%s", wtext);
@@ -380,7 +387,10 @@ static void parse_loop(int argc, char **argv) {
     if (rc == CIF_OK) {
         cif_handler_tp handler;
         walk_ctx ctx;
-        int r2 = cif_container_get_value(b, NAME_X, &g);
+        char *mwtext = NULL;
+        size_t mwsz = 0;
+        int gv = cif_container_get_value(b, NAME_X, &g);
+        int r2 = gv;
         OUT(" g="); if ((r2 == CIF_OK || r2 == CIF_AMBIGUOUS_ITEM) && g != NULL) fdump_pub(stdout, g); else OUT("!%d", r2);
         OUT(" i=");
         mm = open_memstream(&mtext, &msz);
@@ -403,11 +413,17 @@ static void parse_loop(int argc, char **argv) {
         memset(&handler, 0, sizeof(handler));
         handler.handle_item = on_item;
         ctx.out = open_memstream(&wtext, &wsz); ctx.count = 0;
+        ctx.mout = open_memstream(&mwtext, &mwsz);
         r2 = cif_walk(cif, &handler, &ctx);
         fclose(ctx.out);
+        fclose(ctx.mout);
         OUT(" w=%s", wtext);
         if (r2 != CIF_OK) OUT("!walk%d", r2);
-        OUT(" m=%s", mtext);
+        /* for the model: get_value's value field by field and its code, every packet as the iterator delivered it, every value as the
+           walker presented it */
+        OUT(" m="); if (g) dumpx_value(g); else OUT("~");
+        OUT(" f=%d mi=%s mw=%s", gv, mtext, mwtext);
+        free(mwtext);
     }
     if (g) cif_value_free(g);
     if (b) cif_container_free(b);
@@ -418,15 +434,16 @@ static void parse_loop(int argc, char **argv) {
 static void handle(int argc, char **argv) {
     cif_tp *cif = NULL, *scratch = NULL;
     cif_block_tp *b = NULL;
+    cif_container_tp *fr1 = NULL, *fr2 = NULL, *rd = NULL;   /* route frameset: save frames f and f/g; rd = the container read from */
     cif_loop_tp *loop = NULL;
     cif_value_tp *v = NULL, *g = NULL;
     cif_packet_tp *pkt = NULL;
     cif_pktitr_tp *it = NULL;
-    char *otext = NULL, *wtext = NULL;
-    size_t osz = 0, wsz = 0;
-    FILE *m;
+    char *otext = NULL, *wtext = NULL, *mitext = NULL, *mwtext = NULL;
+    size_t osz = 0, wsz = 0, misz = 0, mwsz = 0;
+    FILE *m, *mi;
     const char *route;
-    int pos = 3, rc = -1, mode, brc;
+    int pos = 3, rc = -1, mode, brc, gv = -1;
     UChar *names1[] = { NAME_K, NULL }, *names2[] = { NAME_K, NAME_X, NULL };
 
     if (argc < 4) { OUT("bad-op"); return; }
@@ -484,6 +501,16 @@ static void handle(int argc, char **argv) {
                 it = NULL;
                 cif_packet_free(cur);
             }
+        } else if (strcmp(route, "frameset") == 0) {
+            /* the item lives in a save frame nested in a save frame; the block and the outer frame have content of their own */
+            static UChar CODE_F[] = { 'f', 0 }, CODE_G[] = { 'g', 0 };
+            rc = cif_container_create_loop(b, NULL, names1, &loop);
+            if (rc == CIF_OK) { pkt = key_packet(1); rc = pkt ? cif_loop_add_packet(loop, pkt) : CIF_ERROR; cif_packet_free(pkt); pkt = NULL; }
+            if (rc == CIF_OK) rc = cif_container_create_frame(b, CODE_F, &fr1);
+            if (rc == CIF_OK) { cif_value_tp *k = NULL;
+                if (cif_value_create(CIF_UNK_KIND, &k) == CIF_OK) { UChar one[2] = { '1', 0 }; (void) cif_value_copy_char(k, one); rc = cif_container_set_value(fr1, NAME_K, k); cif_value_free(k); } else rc = CIF_ERROR; }
+            if (rc == CIF_OK) rc = cif_container_create_frame(fr1, CODE_G, &fr2);
+            if (rc == CIF_OK) rc = cif_container_set_value(fr2, NAME_X, v);
         } else { OUT("bad-op"); goto done; }
         if (loop) { cif_loop_free(loop); loop = NULL; }
     }
@@ -511,41 +538,63 @@ static void handle(int argc, char **argv) {
             case 4: if (cif_value_create(CIF_UNK_KIND, &g) == CIF_OK) (void) cif_value_copy_char(g, NAME_K); break;
             default: break;   /* 0, 5: a fresh object is requested */
         }
-        r2 = cif_container_get_value(b, NAME_X, &g);
+        rd = fr2 ? fr2 : b;
+        r2 = cif_container_get_value(rd, NAME_X, &g);
+        gv = r2;
         /* an item with several packets: the first value is provided together with CIF_AMBIGUOUS_ITEM (documented) */
         OUT(" g="); if (r2 == CIF_OK || (r2 == CIF_AMBIGUOUS_ITEM && g != NULL && strcmp(route, "additem") == 0)) fdump_pub(stdout, g); else OUT("!%d", r2);
         /* (b) packet iteration */
         OUT(" i=");
-        r2 = cif_container_get_item_loop(b, NAME_X, &loop);
+        mi = open_memstream(&mitext, &misz);
+        r2 = cif_container_get_item_loop(rd, NAME_X, &loop);
         if (r2 == CIF_OK) r2 = cif_loop_get_packets(loop, &it);
         if (r2 == CIF_OK) {
             cif_packet_tp *cur = NULL;
             while ((r2 = cif_pktitr_next_packet(it, &cur)) == CIF_OK) {
                 cif_value_tp *x = NULL;
-                if (!first) OUT(",");
+                if (!first) { OUT(","); fprintf(mi, ","); }
                 first = 0;
-                if (cif_packet_get_item(cur, NAME_X, &x) == CIF_OK) fdump_pub(stdout, x); else OUT("!noitem");
+                if (cif_packet_get_item(cur, NAME_X, &x) == CIF_OK) { fdump_pub(stdout, x); fdumpx_value(mi, x); } else { OUT("!noitem"); fprintf(mi, "!"); }
             }
-            if (r2 != CIF_FINISHED) OUT("!iter%d", r2);
+            if (r2 != CIF_FINISHED) { OUT("!iter%d", r2); fprintf(mi, "!iter%d", r2); }
             (void) cif_pktitr_close(it); it = NULL;
             if (cur) cif_packet_free(cur);
-        } else OUT("!%d", r2);
+        } else { OUT("!%d", r2); fprintf(mi, "!%d", r2); }
+        fclose(mi);
         if (loop) { cif_loop_free(loop); loop = NULL; }
         /* (c) walk */
         memset(&handler, 0, sizeof(handler));
         handler.handle_item = on_item;
         ctx.out = open_memstream(&wtext, &wsz); ctx.count = 0;
+        ctx.mout = open_memstream(&mwtext, &mwsz);
         r2 = cif_walk(cif, &handler, &ctx);
         fclose(ctx.out);
+        fclose(ctx.mout);
         OUT(" w=%s", wtext);
         if (r2 != CIF_OK) OUT("!walk%d", r2);
+        /* for the model: get_value's value field by field and its code (CIF_OK / CIF_AMBIGUOUS_ITEM), every packet as the iterator
+           delivered it, every value as the walker presented it, and — for a number object — the two doubles the getters compute
+           from what was read back (after the field dump: the getters may cache) */
         OUT(" m="); if (g) dumpx_value(g); else OUT("~");
+        OUT(" f=%d mi=%s mw=%s", gv, mitext, mwtext);
+        if (r2 != CIF_OK) OUT("!walk%d", r2);
+        OUT(" d=");
+        if (g && cif_value_kind(g) == CIF_NUMB_KIND) {
+            double d;
+            if (cif_value_get_number(g, &d) == CIF_OK) fdouble(stdout, d); else OUT("!");
+            OUT("#");
+            if (cif_value_get_su(g, &d) == CIF_OK) fdouble(stdout, d); else OUT("!");
+        } else OUT("-");
     }
 done:
     if (g) cif_value_free(g);
     if (v) cif_value_free(v);
+    if (fr2) cif_container_free(fr2);
+    if (fr1) cif_container_free(fr1);
     if (b) cif_container_free(b);
     if (cif) cif_destroy(cif);
     free(otext);
     free(wtext);
+    free(mitext);
+    free(mwtext);
 }
